@@ -306,8 +306,9 @@ structure Audit where
   commanded : Option ActionOut
   /-- `None`: generation did not run; `Some`: what `generate_algo_orders` returned -/
   generated : Option AlgoOut
-  /-- the `AlgoOrders` output as it appears in the audit: dropped when empty or when it carries an
-  unrecoverable error (engine/mod.rs:176-181) -/
+  /-- the `AlgoOrders` output as it appears in the audit: dropped only when empty; an output that
+  carries an unrecoverable error is reported TOGETHER with the errors (engine/mod.rs:175-181, after
+  the repair `fix: keep the AlgoOrders output in the audit …`) -/
   algoInAudit : Option AlgoOut
   /-- the audit carries unrecoverable errors (terminal) -/
   fatal : Bool
@@ -320,7 +321,7 @@ def generateStage (e : Eng) (commanded : Option ActionOut) (algoC : List CancelR
   if e.enabled then
     let r := generateAlgoOrders e algoC algoO refuse
     (r.1, ⟨commanded, some r.2,
-      if r.2.isEmpty || r.2.fatal then none else some r.2,
+      if r.2.isEmpty then none else some r.2,
       !r.2.isEmpty && r.2.fatal⟩)
   else (e, ⟨commanded, none, none, false⟩)
 
